@@ -434,6 +434,121 @@ def r6(ctx, prog):
         raise AnalysisBroken('CalcCheckSum16: expected >= 2 accumulator updates, saw %d' % n)
 
 
+def _loop_domain(f, var):
+    """values a counted for-loop variable takes: for (int v = a; v < b; v++) with constant a, b (also <=, >=/-- forms)"""
+    for lp in f.stmts:
+        if not lp or lp['k'] != 'ForStmt' or lp.get('init') is None or lp.get('cond') is None:
+            continue
+        ini = f.s(lp['init'])
+        if not ini or ini['k'] != 'DeclStmt' or not any(d.get('n') == var for d in ini['decls']):
+            continue
+        d = [d for d in ini['decls'] if d.get('n') == var][0]
+        a = q.eval_int(f, d.get('init'), {})
+        cs = f.s(f.strip_casts(lp['cond']))
+        if a is None or not cs or cs['k'] != 'BinaryOperator' or cs.get('op') not in ('<', '<=', '>', '>='):
+            return None
+        b = q.eval_int(f, cs['ch'][1], {})
+        if b is None or f.path(cs['ch'][0]) != var:
+            return None
+        inc = [st for st in f.stmts if st and st['i'] in set(f.walk(lp['i'])) and st['k'] == 'UnaryOperator' and st.get('op') in ('++', '--') and f.path(st['ch'][0]) == var]
+        if len(inc) != 1:
+            return None
+        if inc[0]['op'] == '++' and cs['op'] in ('<', '<='):
+            return list(range(a, b + (1 if cs['op'] == '<=' else 0)))
+        if inc[0]['op'] == '--' and cs['op'] in ('>', '>='):
+            return list(range(a, b - (1 if cs['op'] == '>=' else 0), -1))
+    return None
+
+
+def r7(ctx, prog):
+    ctx.rule('C19.R7', 'A11 structure conformance with FIPS-197: block load/store is column-major; ShiftRows/InvShiftRows are the row rotations (index expressions '
+             'evaluated over r, c in 0..3); MixColumns/InvMixColumns use the circulant matrices (02 03 01 01)/(0e 0b 0d 09); xtime reduces with 0x1b on the high bit; '
+             'cipher = AddRoundKey(w[0]), 10 rounds of SubBytes, ShiftRows, MixColumns (not in the last), AddRoundKey(w[i]); invcipher is the inverse sequence', floor=9)
+    def fn(short):
+        fs = [g for g in prog.funcs.values() if g.short == short and g.file.endswith('crypto/aes.cpp') and not g.parent_usr]
+        if len(fs) != 1:
+            raise AnalysisBroken('aes.cpp: function %s not found' % short)
+        return fs[0]
+    # row rotations
+    for name, want in (('ShiftRows', lambda r, c: (c + r) % 4), ('InvShiftRows', lambda r, c: (c - r) % 4)):
+        f = fn(name)
+        rd_ = _loop_domain(f, 'r')
+        asg = [st for st in f.stmts if st and st['k'] == 'BinaryOperator' and st.get('op') == '=' and f.s(f.strip_casts(st['ch'][1])) is not None and
+               f.s(f.strip_casts(st['ch'][1]))['k'] == 'ArraySubscriptExpr' and q.expr_text(f, st['ch'][1]).startswith('state[')]
+        ok = rd_ == [1, 2, 3] and len(asg) == 1
+        if ok:
+            src = f.s(f.strip_casts(asg[0]['ch'][1]))          # state[r][E]
+            row = f.s(f.strip_casts(src['ch'][0]))
+            ok = q.expr_text(f, row['ch'][1]) == 'r' and all(q.eval_int(f, src['ch'][1], {'r': r, 'c': c}) == want(r, c) for r in (1, 2, 3) for c in range(4)) and \
+                q.expr_text(f, asg[0]['ch'][0]) == 't[c]' and any(q.expr_text(f, st['i']) == '(state[r][c]=t[c])' for st in f.stmts if st and st['k'] == 'BinaryOperator')
+        ctx.ob('C19.R7', 'aes|%s' % name, ok, 'rows 1..3 rotated by their row number (%s)' % ('left' if name == 'ShiftRows' else 'right') if ok else
+               '%s does not rotate row r by r positions for r = 1..3' % name, where=f.loc(f.body))
+    # column mixing
+    for name, coef in (('MixColumns', (2, 3, 1, 1)), ('InvMixColumns', (14, 11, 13, 9))):
+        f = fn(name)
+        calls = [c for c in f.calls() if c.get('fn') == 'FFmul' or (c.get('callee') or '').endswith('FFmul')]
+        mat = {}
+        ok = len(calls) == 4
+        for c in calls:
+            k = q.eval_int(f, c['args'][0], {})
+            t = f.s(f.strip_casts(c['args'][1]))
+            if k is None or not t or t['k'] != 'ArraySubscriptExpr':
+                ok = False
+                continue
+            for r in range(4):
+                j = q.eval_int(f, t['ch'][1], {'r': r})
+                if j is None:
+                    ok = False
+                else:
+                    mat[(r, j)] = mat.get((r, j), 0) ^ k
+        want = {(r, (r + d) % 4): coef[d] for r in range(4) for d in range(4)}
+        ok = ok and mat == want and _loop_domain(f, 'r') == [0, 1, 2, 3] and _loop_domain(f, 'c') == [0, 1, 2, 3]
+        ctx.ob('C19.R7', 'aes|%s' % name, ok, 'coefficient matrix is circulant(%s)' % ' '.join('%02x' % x for x in coef) if ok else
+               '%s: coefficient matrix read off the code is %s, FIPS-197 requires circulant(%s)' % (name, sorted(mat.items()), ' '.join('%02x' % x for x in coef)), where=f.loc(f.body))
+    # xtime
+    f = fn('FFmul')
+    txt = [q.expr_text(f, st['i']) for st in f.stmts if st and st['k'] in ('BinaryOperator', 'CompoundAssignOperator')]
+    ok = '(bw[i]=(bw[(i-1)]<<1))' in txt and '(bw[i]^=27)' in txt and any(t == '(bw[(i-1)]&128)' for t in txt)
+    ctx.ob('C19.R7', 'aes|xtime', ok, 'doubling shifts left and reduces with 0x1b when bit 7 was set', where=f.loc(f.body))
+    # block load/store and round structure
+    for name, first, seq, skip_fn, skip_i, rounds in (('cipher', 'w[0]', ['SubBytes', 'ShiftRows', 'MixColumns', 'AddRoundKey'], 'MixColumns', 10, list(range(1, 11))),
+                                                      ('invcipher', 'w[10]', ['InvShiftRows', 'InvSubBytes', 'AddRoundKey', 'InvMixColumns'], 'InvMixColumns', 0, list(range(9, -1, -1)))):
+        f = prog.fn1('tbox::crypto::AES::' + name)
+        loads = [st for st in f.stmts if st and st['k'] == 'BinaryOperator' and st.get('op') == '=' and q.expr_text(f, st['i']) in ('(state[r][c]=input[((c*4)+r)])', '(output[((c*4)+r)]=state[r][c])')]
+        ctx.ob('C19.R7', 'aes|%s|column-major' % name, len(loads) == 2, 'state[r][c] <-> byte 4c + r on load and store', where=f.loc(f.body))
+        lp = [st for st in f.stmts if st and st['k'] == 'ForStmt' and any(c.get('fn') == 'AddRoundKey' and c['i'] in set(f.walk(st['body'])) for c in f.calls())]
+        if len(lp) != 1:
+            raise AnalysisBroken('AES::%s: round loop not found' % name)
+        body = set(f.walk(lp[0]['body']))
+        inloop = [c for c in f.calls() if c['i'] in body and c.get('fn') in seq]
+        pre = [c for c in f.calls() if c['i'] not in body and c.get('fn') == 'AddRoundKey']
+        ok = [c.get('fn') for c in sorted(inloop, key=lambda c: (c['l'], c['i']))] == seq and len(pre) == 1 and q.expr_text(f, pre[0]['args'][1]) == first and \
+            f.cfg.dominates(q.pt(f, pre[0]), q.pt(f, inloop[0])) and _loop_domain(f, 'i') == rounds
+        ark = [c for c in inloop if c.get('fn') == 'AddRoundKey']
+        ok = ok and len(ark) == 1 and q.expr_text(f, ark[0]['args'][1]) == 'w[i]'
+        # the mixing step is skipped exactly in the boundary round
+        mix = [c for c in inloop if c.get('fn') == skip_fn]
+        gl = [(c_, k_) for c_, k_, b_ in f.cfg.controlling_branches(q.pt(f, mix[0]))] if mix else []
+        skip_ok = False
+        for c_, k_ in gl:
+            vals = [i for i in rounds if (lambda v: v is not None and bool(v))(q.eval_int(f, c_, {'i': i}) if f.s(f.strip_casts(c_))['k'] != 'BinaryOperator' or f.s(f.strip_casts(c_)).get('op') not in ('!=', '==', '<', '>', '<=', '>=') else
+                                                                          _cmp_eval(f, c_, i)) == (k_ == 0)]
+            if vals == [i for i in rounds if i != skip_i]:
+                skip_ok = True
+        # unconditional calls in the loop have only the loop condition as guard
+        ctx.ob('C19.R7', 'aes|%s|rounds' % name, ok and skip_ok, '%s(%s), then rounds %s: %s, %s skipped only for i = %d' % ('AddRoundKey', first, '%d..%d' % (rounds[0], rounds[-1]), ' '.join(seq), skip_fn, skip_i)
+               if ok and skip_ok else 'round structure of AES::%s differs from FIPS-197 (sequence %s, first key %s, rounds %s, %s skipped exactly in round %d: %s)' %
+               (name, [c.get('fn') for c in sorted(inloop, key=lambda c: (c['l'], c['i']))], q.expr_text(f, pre[0]['args'][1]) if pre else '?', _loop_domain(f, 'i'), skip_fn, skip_i, skip_ok), where=f.loc(lp[0]['i']))
+
+
+def _cmp_eval(f, cond, i):
+    cs = f.s(f.strip_casts(cond))
+    a, b = q.eval_int(f, cs['ch'][0], {'i': i}), q.eval_int(f, cs['ch'][1], {'i': i})
+    if a is None or b is None:
+        return None
+    return {'!=': a != b, '==': a == b, '<': a < b, '>': a > b, '<=': a <= b, '>=': a >= b}[cs['op']]
+
+
 def run(ctx):
     prog = extract('ALL' if ctx.tier == 'thorough' else SCOPE)
     ctx.guard(r1, ctx, prog)
@@ -442,4 +557,5 @@ def run(ctx):
     ctx.guard(r4, ctx, prog)
     ctx.guard(r5, ctx, prog)
     ctx.guard(r6, ctx, prog)
+    ctx.guard(r7, ctx, prog)
     return prog
